@@ -56,6 +56,10 @@ let rec tree_of cp = function
      "ID B <acct> <sorted amounts>" per account, "ID P <sym> <prec>" per commodity, "ID N <accepted postings>" *)
 let handle line =
   match parse_sexp line with
+  | L (A "glob" :: A id :: pat :: names) ->
+    (* (glob ID PATTERNHEX NAMEHEX ...): which of the file names the include pattern reads -> "ID G NAMEHEX 0|1" *)
+    let p = str_of_hex (atom pat) in
+    List.map (fun n -> Printf.sprintf "%s G %s %d" id (atom n) (if include_matches p (str_of_hex (atom n)) then 1 else 0)) names
   | L (A "range" :: A id :: items) ->
     (* (range ID (LABELHEX DATE) ...): the postings of a report in the order they arrive, each with the label of its
        group and its date (yyyymmdd) -> "ID R * s f" for all of them, "ID R LABELHEX s f" per label *)
